@@ -160,6 +160,14 @@ class _FsEntry:
     def exists(self):
         return self.path in self.fs.files
 
+    def truncate(self):
+        """open(path, 'w') empties the file at once; if the writer then fails (encoding error), it stays empty."""
+        if self.fs.unwritable:
+            raise PermissionError(self.path)
+        if self.path in self.fs.files:
+            self.fs.files[self.path] = "" if isinstance(self.fs.files[self.path], str) else b""
+            self.fs.truncated.append(self.path)
+
 
 class FakeFS:
     """In-memory text files behind an `open` replacement; records every write."""
@@ -167,6 +175,7 @@ class FakeFS:
     def __init__(self, files: dict, unwritable: bool = False):
         self.files = {str(k): v for k, v in files.items()}
         self.writes = []
+        self.truncated = []
         self.unwritable = unwritable
         for k in self.files:
             vfs.register(k, _FsEntry(self, k))
